@@ -82,6 +82,8 @@ def sources(tier, seed, ctx):
     for t in ['NOT', 'AND', 'NAND', 'OR', 'NOR', 'XOR', 'NXOR', 'GEQ', 'GT', 'LEQ', 'LT']:
         srcs.append({'k': 'pattern', 't': t})
     srcs.append({'k': 'opcodes'})
+    for code in itertools.product('01', repeat=4):
+        srcs.append({'k': 'synthcode', 'code': ''.join(code)})
     return srcs
 
 
@@ -286,6 +288,27 @@ def record(src):
                 bits = [(i >> j) & 1 for j in range(n)]      # assignment number i gives input j the bit j of i
                 rows.append(sum(b << (n - 1 - j) for j, b in enumerate(bits)))
         return {'kind': 'optable', 't': t, 'n': n, 'who': 'subcircuit-pattern-simulation', 'rows': sorted(rows), 'badrows': [], 'src': src}
+    if src['k'] == 'synthcode':
+        # the synthesis encoder asked for ONE gate over the basis {operation with this code} and the
+        # function with this truth table must answer with a gate that denotes the code
+        try:
+            from cirbo.core.truth_table import TruthTableModel
+            from cirbo.synthesis.circuit_search import CircuitFinderSat, Operation
+        except Exception:
+            return []
+        code = src['code']
+        op = [o for o in Operation if o.value == code]
+        if not op:
+            return []
+        case = {'kind': 'ttcode', 'code': [int(ch) for ch in code], 't': '?', 'rows': [], 'who': 'synthesis', 'src': src}
+        try:
+            circ = CircuitFinderSat(TruthTableModel([[ch == '1' for ch in code]]), 1, basis=[op[0]]).find_circuit()
+            lab = circ.outputs[0]
+            case['t'] = circ.get_gate(lab).gate_type.name
+            case['rows'] = [r for r, x in enumerate(itertools.product((False, True), repeat=2)) if circ.evaluate(list(x))[0] is True]
+        except Exception as e:
+            case['t'] = 'raised:' + type(e).__name__
+        return case
     if src['k'] == 'opcodes':
         try:
             from cirbo.synthesis.circuit_search import Operation
